@@ -45,26 +45,56 @@ var specReservedBits = map[string]int64{"PubRel": 2, "Subscribe": 2, "Unsubscrib
 // firstEmissionField: the receiver field whose value the packet's encoder
 // emits first (at the entry offset).
 func (p *Prog) firstEmissionField(fill *ssa.Function) (int, bool) {
-	_, off, ems, _ := emissionsOf(p, fill)
+	v, ok := p.firstEmissionValue(fill, 0)
+	if !ok {
+		return 0, false
+	}
+	ld, ok := stripConvs(v).(*ssa.UnOp)
+	if !ok || ld.Op != token.MUL {
+		return 0, false
+	}
+	fa, ok := ld.X.(*ssa.FieldAddr)
+	if !ok || !isRecvOf(p, fill, fa.X) {
+		return 0, false
+	}
+	return fa.Field, true
+}
+
+// firstEmissionValue: the value (in fn's own terms) whose encoding fn emits at its entry offset.  When that
+// emission is delegated to a plain helper of the fill family (fillX(v, b, i)), the helper's first emission is
+// followed back to the argument passed for the parameter it emits.
+func (p *Prog) firstEmissionValue(fn *ssa.Function, depth int) (ssa.Value, bool) {
+	if depth > 3 {
+		return nil, false
+	}
+	_, off, ems, _ := emissionsOf(p, fn)
 	for _, e := range ems {
 		if e.offset != ssa.Value(off) {
 			continue
+		}
+		if sc := e.call.Call.StaticCallee(); sc != nil && sc.Signature.Recv() == nil && sc.Parent() == nil && fillBufIndex(sc) > 0 {
+			hv, ok := p.firstEmissionValue(sc, depth+1)
+			if !ok {
+				return nil, false
+			}
+			prm, ok := stripConvs(hv).(*ssa.Parameter)
+			if !ok {
+				return nil, false
+			}
+			for k, q := range sc.Params {
+				if q == prm && k < len(e.call.Call.Args) {
+					return e.call.Call.Args[k], true
+				}
+			}
+			return nil, false
 		}
 		recvArg := e.call.Call.Args[0]
 		if e.call.Call.IsInvoke() {
 			recvArg = e.call.Call.Value
 		}
-		ld, ok := stripConvs(recvArg).(*ssa.UnOp)
-		if !ok || ld.Op != token.MUL {
-			return 0, false
-		}
-		fa, ok := ld.X.(*ssa.FieldAddr)
-		if !ok || !isRecvOf(p, fill, fa.X) {
-			return 0, false
-		}
-		return fa.Field, true
+		return recvArg, true
 	}
-	return 0, false
+	return nil, false
 }
 
 func checkC16(p *Prog, c *Check) {
